@@ -2,19 +2,23 @@ import I2N.Lemmas.TravStates
 import I2N.Lemmas.TravClean
 /-!
 C01 with state removal on pre-parsed graphs: the semantic invariant of `TravStates.lean` (`Sem` = `Prov` ∧ `FinSrc`)
-is weakened to `SemR` = `Prov` ∧ `FinSrcR`: the set states of a traversed parsed copy `p` are sourced (`Src`) **or**
-`p` is removable and cleanup-ready for its owner (every dependant of `p` the owner cares for has been dropped by the
-owner).  The second alternative is what `sync_states` leaves behind when it removes the states of `p`: `reverse_node`
-is only reached on a cleanup-ready node, and the `droppedCleanup` registers only grow.
+is weakened to `SemR` = `Prov` ∧ `FinSrcR` ∧ `FinRes`: the set states of a traversed parsed copy `p` are sourced (`Src`)
+**or** some removable copy `i` of the class of `p` is cleanup-ready for its owner (`AltC`: every dependant of `i` the owner
+cares for has been dropped by the owner).  The second alternative is what `sync_states` leaves behind when it removes the
+states of `i`: `reverse_node` is only reached on a cleanup-ready node, and the `droppedCleanup` registers only grow.
+`FinRes`: the class of a traversed stateless parsed copy has a result (or a placeholder).  The invariant is inductive
+without any hypothesis on the number of copies.
 
-At the start of a dependant `n` of `p` the second alternative is excluded by C05's invariant `CInv`
-(`TravClean.lean`): the worker awaits the test on the last node of its path, and no node on its path is dropped —
-but a cleanup-ready `p` has dropped `n`.
-
-The hypothesis that makes the invariant inductive is `RemovableSingle`: a removable class has ONE parsed copy (it is
-parsed for one worker only; in particular: any graph with a single worker).  Without it a worker that comes late to
-its own copy of a removable class skips it (the class counts as finished: no scan) although the state has been
-removed from the pool of the worker that produced it (`Props/C01.lean: removed_state_stale_location`).
+At the start of a dependant `n` of `p` the second alternative has to be excluded.  Two ways (`Props/C01.lean`):
+* `RemovableSingle` (a removable class has ONE parsed copy — any graph with a single worker): then `i = p` is the
+  starting worker's own copy, and C05's invariant `CInv` (`TravClean.lean`) says that the worker awaits the test on the
+  last node of its path and no node on its path is dropped — but a cleanup-ready `p` has dropped `n`;
+* `SymCopies` (the copies of a removable class have dependants of the same classes) and `MaxTriesOne` (no retries): the
+  owner of `i` has dropped, hence traversed, its copy of the class of `n`; a positive run decision without retries means
+  that the class of `n` has no result (stateless) or no traversed copy (stateful) — contradiction (`RunWhy`).
+Without either, a worker that comes late to its own copy of a removable class skips it (the class counts as finished: no
+scan) although the state has been removed from the pool of the worker that produced it
+(`Props/C01.lean: removed_state_stale_location`).
 -/
 namespace I2N.Trav
 
@@ -122,12 +126,36 @@ def RemovableSingle (g : Graph) : Prop :=
 instance (g : Graph) : Decidable (NoCopyBack g) := by unfold NoCopyBack; infer_instance
 instance (g : Graph) : Decidable (RemovableSingle g) := by unfold RemovableSingle; infer_instance
 
-/-- `SemHyp` of `TravStates.lean` with `NoRemoval` replaced by `NoCopyBack` and `RemovableSingle` -/
+/-- the copies of a removable class have dependants of the same classes: for every cleanup child `c` of a parsed copy
+`p` that the owner of `p` cares for, every removable parsed copy `p'` of the class of `p` has a cleanup child of the class
+of `c` that its owner cares for -/
+def SymChild (g : Graph) (p p' w u : Nat) : Prop :=
+  ∀ c ∈ (g.node p).cleanup, relevant g w c.1 = true →
+    ∃ c' ∈ (g.node p').cleanup, (g.node c'.1).cls = (g.node c.1).cls ∧ relevant g u c'.1 = true
+
+instance (g : Graph) (p p' w u : Nat) : Decidable (SymChild g p p' w u) := by unfold SymChild; infer_instance
+
+def SymOwners (g : Graph) (p p' : Nat) : Prop :=
+  ∀ w, w < g.workers.length → ∀ u, u < g.workers.length → (g.node p).owner = some w → (g.node p').owner = some u →
+    SymChild g p p' w u
+
+instance (g : Graph) (p p' : Nat) : Decidable (SymOwners g p p') := by unfold SymOwners; infer_instance
+
+def SymCopiesAt (g : Graph) (p p' : Nat) : Prop :=
+  (g.node p).flat = false → (g.node p').flat = false → (g.node p).cls = (g.node p').cls → Removable (g.node p') = true →
+    SymOwners g p p'
+
+instance (g : Graph) (p p' : Nat) : Decidable (SymCopiesAt g p p') := by unfold SymCopiesAt; infer_instance
+
+def SymCopies (g : Graph) : Prop := ∀ p, p < g.nodes.length → ∀ p', p' < g.nodes.length → SymCopiesAt g p p'
+
+instance (g : Graph) : Decidable (SymCopies g) := by unfold SymCopies; infer_instance
+
+/-- `SemHyp` of `TravStates.lean` with `NoRemoval` replaced by `NoCopyBack` -/
 structure SemHypR (g : Graph) : Prop where
   fullScope : FullScope g
   plainNodes : PlainNodes g
   noCopyBack : NoCopyBack g
-  removableSingle : RemovableSingle g
   producerSets : ProducerSets g
   uniqueProducer : UniqueProducer g
   setsClass : SetsClass g
@@ -167,42 +195,68 @@ theorem MonoC.ready {s s' : State} (a : MonoC s s') (g : Graph) (n v : Nat) (h :
     isCleanupReady g s' n v = true :=
   Clean.isCleanupReady_mono g s s' n v (fun cp c h => a cp c v h) h
 
-/-- the alternative to `Src`: the copy is removable and its owner has dropped every dependant it cares for -/
-def Alt (g : Graph) (s : State) (p : Nat) : Prop :=
-  Removable (g.node p) = true ∧ ∀ u, (g.node p).owner = some u → isCleanupReady g s p u = true
+/-- the alternative to `Src`: a removable parsed copy `i` of class `c` whose owner has dropped every dependant it cares for -/
+def AltC (g : Graph) (s : State) (c : Nat) : Prop :=
+  ∃ i u, i < g.nodes.length ∧ (g.node i).flat = false ∧ (g.node i).cls = c ∧ (g.node i).owner = some u ∧
+    Removable (g.node i) = true ∧ isCleanupReady g s i u = true
 
-theorem Alt.mono {g : Graph} {s s' : State} {p : Nat} (h : Alt g s p) (a : MonoC s s') : Alt g s' p :=
-  ⟨h.1, fun u hu => a.ready g p u (h.2 u hu)⟩
+/-- … for the class of node `p` -/
+def Alt (g : Graph) (s : State) (p : Nat) : Prop := AltC g s (g.node p).cls
 
-/-- the states set by a traversed parsed copy are sourced, or the copy is removable and cleanup-ready for its owner -/
+theorem Alt.mono {g : Graph} {s s' : State} {p : Nat} (h : Alt g s p) (a : MonoC s s') : Alt g s' p := by
+  obtain ⟨i, u, h1, h2, h3, h4, h5, h6⟩ := h
+  exact ⟨i, u, h1, h2, h3, h4, h5, a.ready g i u h6⟩
+
+theorem Alt.congr {g : Graph} {s : State} {p p' : Nat} (h : Alt g s p) (hc : (g.node p).cls = (g.node p').cls) :
+    Alt g s p' := by
+  unfold Alt at h ⊢; rw [← hc]; exact h
+
+/-- the states set by a traversed parsed copy are sourced, or a removable copy of its class is cleanup-ready for its owner -/
 def FinSrcR (g : Graph) (s : State) : Prop :=
   ∀ p, p < g.nodes.length → (g.node p).flat = false → (s.nd p).finished.isSome = true →
     ∀ vs ∈ (g.node p).sets, Src g s p vs ∨ Alt g s p
 
+/-- the class of a traversed stateless parsed copy has a result (or a placeholder) -/
+def FinRes (g : Graph) (s : State) : Prop :=
+  ∀ p, p < g.nodes.length → (g.node p).flat = false → (s.nd p).finished.isSome = true → (g.node p).sets = [] →
+    ∃ r, r ∈ sharedResults g s p
+
 structure SemR (g : Graph) (store0 : List (String × List (String × String))) (s : State) : Prop where
   prov : Prov g store0 s
   fin : FinSrcR g s
+  res : FinRes g s
 
 theorem SemR.grow {g : Graph} {store0 : List (String × List (String × String))} {s s' : State} (j : SemR g store0 s)
     (a : Grow s s') (m : MonoC s s') : SemR g store0 s' := by
-  refine ⟨fun loc vs h => ?_, fun p hp hf hfin vs hvs => ?_⟩
+  refine ⟨fun loc vs h => ?_, fun p hp hf hfin vs hvs => ?_, fun p hp hf hfin hs => ?_⟩
   · rw [a.store] at h
     rcases j.prov loc vs h with h' | ⟨u, q, h1, h2, h3, h4, h5, r, hr, hn⟩
     · exact Or.inl h'
     · exact Or.inr ⟨u, q, h1, h2, h3, h4, h5, r, a.results q r hr, hn⟩
   · rw [a.fin] at hfin
     exact (j.fin p hp hf hfin vs hvs).imp a.src (fun h => h.mono m)
+  · rw [a.fin] at hfin
+    obtain ⟨r, hr⟩ := j.res p hp hf hfin hs
+    exact ⟨r, a.sharedResults g p r hr⟩
 
 theorem SemR.frame {g : Graph} {store0 : List (String × List (String × String))} {s s' : State} (j : SemR g store0 s)
     (a : Frame s s') (m : MonoC s s') : SemR g store0 s' := j.grow a.grow m
 
 theorem SemR.init (g : Graph) (ncls : Nat) (store : List (String × List (String × String))) (H0 : List Nat) :
     SemR g store (initState g ncls store H0) :=
-  ⟨(Sem.init g ncls store H0).prov, fun p hp hf hfin vs hvs => Or.inl ((Sem.init g ncls store H0).fin p hp hf hfin vs hvs)⟩
+  ⟨(Sem.init g ncls store H0).prov, fun p hp hf hfin vs hvs => Or.inl ((Sem.init g ncls store H0).fin p hp hf hfin vs hvs),
+    fun p _ _ hfin _ => by
+      have : ((initState g ncls store H0).nd p).finished = none := by
+        unfold initState State.nd
+        simp only [List.getD_eq_getElem?_getD, List.getElem?_map]
+        cases g.nodes[p]? <;> rfl
+      rw [this] at hfin
+      cases hfin⟩
 
 /-- the end of `traverse_node` on a copy whose set states are sourced or removed after all dependants -/
 theorem SemR.finish {g : Graph} {store0 : List (String × List (String × String))} {s : State} (j : SemR g store0 s)
-    (p w : Nat) (hsrc : p < g.nodes.length → (g.node p).flat = false → ∀ vs ∈ (g.node p).sets, Src g s p vs ∨ Alt g s p) :
+    (p w : Nat) (hsrc : p < g.nodes.length → (g.node p).flat = false → ∀ vs ∈ (g.node p).sets, Src g s p vs ∨ Alt g s p)
+    (hres0 : p < g.nodes.length → (g.node p).flat = false → (g.node p).sets = [] → ∃ r, r ∈ sharedResults g s p) :
     SemR g store0 (finishTraverse s p w) := by
   have hres : ∀ m, ((finishTraverse s p w).nd m).results = (s.nd m).results := fun m =>
     nd_setNd_proj (·.results) s p (fun d => { d with finished := some w, started := none }) (fun _ => rfl) m
@@ -214,7 +268,7 @@ theorem SemR.finish {g : Graph} {store0 : List (String × List (String × String
     · refine Or.inr (Or.inl ⟨u, ?_, h⟩)
       rw [sharedResultWorkerIds_congr g s _ q hres]; exact hu
     · exact Or.inr (Or.inr ⟨r, by rw [sharedResults_congr g s _ q hres]; exact hr, h⟩)
-  refine ⟨fun loc vs h => ?_, fun q hq hf hfin vs hvs => ?_⟩
+  refine ⟨fun loc vs h => ?_, fun q hq hf hfin vs hvs => ?_, fun q hq hf hfin hs => ?_⟩
   · rcases j.prov loc vs h with h' | ⟨u, q, h1, h2, h3, h4, h5, r, hr, hn⟩
     · exact Or.inl h'
     · exact Or.inr ⟨u, q, h1, h2, h3, h4, h5, r, by rw [hres]; exact hr, hn⟩
@@ -224,6 +278,13 @@ theorem SemR.finish {g : Graph} {store0 : List (String × List (String × String
         unfold finishTraverse; rw [nd_setNd_ne s p q _ hqp]
       rw [this] at hfin
       exact (j.fin q hq hf hfin vs hvs).imp hg (fun h => h.mono hm)
+  · rw [sharedResults_congr g s _ q hres]
+    by_cases hqp : q = p
+    · subst hqp; exact hres0 hq hf hs
+    · have : ((finishTraverse s p w).nd q).finished = (s.nd q).finished := by
+        unfold finishTraverse; rw [nd_setNd_ne s p q _ hqp]
+      rw [this] at hfin
+      exact j.res q hq hf hfin hs
 
 /-- the removal: a set `rem` of `f`-mode set states of the cleanup-ready own copy `n` leaves `w`'s pool -/
 theorem SemR.rm {g : Graph} {store0 : List (String × List (String × String))} {s : State} (hy : SemHypR g)
@@ -234,21 +295,16 @@ theorem SemR.rm {g : Graph} {store0 : List (String × List (String × String))} 
     (hst : ∀ loc vs, vs ∈ storeGet st loc ↔ vs ∈ storeGet s.store loc ∧ ¬ (loc = (g.worker w).id ∧ vs ∈ rem)) :
     SemR g store0 { s with store := st } := by
   have hres : ∀ m, (({ s with store := st } : State).nd m).results = (s.nd m).results := fun _ => rfl
-  refine ⟨fun loc vs h => ?_, fun p hp hfp hfin vs hvs => ?_⟩
+  refine ⟨fun loc vs h => ?_, fun p hp hfp hfin vs hvs => ?_, fun p hp hfp hfin hs => j.res p hp hfp hfin hs⟩
   · rcases j.prov loc vs ((hst loc vs).mp h).1 with h' | ⟨u, q, h1, h2, h3, h4, h5, r, hr, hrn⟩
     · exact Or.inl h'
     · exact Or.inr ⟨u, q, h1, h2, h3, h4, h5, r, hr, hrn⟩
   · by_cases hvr : vs ∈ rem
-    · -- a removed state: the copy is `n` itself
+    · -- a removed state: the copy is of the class of `n`, which is removable and cleanup-ready for `w`
       right
       obtain ⟨h1, h2⟩ := hrem vs hvr
       have hc : (g.node n).cls = (g.node p).cls := hy.uniqueProducer n hn p hp vs h1 hf hfp hvs
-      have hnp : n = p := hy.removableSingle n hn p hp hf hfp (removable_of_mem h1 h2) hc
-      subst hnp
-      refine ⟨removable_of_mem h1 h2, fun u hu => ?_⟩
-      rw [ho] at hu
-      cases hu
-      exact hready
+      exact ⟨n, w, hn, hf, hc, ho, removable_of_mem h1 h2, hready⟩
     · have hkeep : ∀ loc, vs ∈ storeGet s.store loc → vs ∈ storeGet st loc :=
         fun loc h => (hst loc vs).mpr ⟨h, fun h' => hvr h'.2⟩
       rcases j.fin p hp hfp hfin vs hvs with (h | ⟨u, hu, h⟩ | ⟨r, hr, h⟩) | h
@@ -461,8 +517,7 @@ theorem runDecision_false_srcR (g : Graph) {store0 : List (String × List (Strin
     have hfli : (g.node i).flat = false := by rw [sc.hF i hil p hp hic]; exact hf
     rcases j.fin i hil hfli (by rw [hfi]; rfl) vs (by rw [hy.setsClass i hil p hp hic]; exact hvs) with h' | h'
     · exact Or.inl (h'.congr hil hp hfli hf hic)
-    · have hip : i = p := hy.removableSingle i hil p hp hfli hf h'.1 hic
-      rw [← hip]; exact Or.inr h'
+    · exact Or.inr (h'.congr hic)
   · -- nobody has traversed the class: the scan found every state in the own or in the shared pool
     left
     have hfin' : isFinished g s p w 1 = false := by simpa using hfin
@@ -487,11 +542,108 @@ theorem runDecision_false_srcR (g : Graph) {store0 : List (String × List (Strin
           · exact Or.inr (Or.inr ⟨r, hrs, hst⟩)
       · exact Or.inl hin
 
+/-- a negative run decision on a stateless parsed copy: the class has a result -/
+theorem runDecision_false_res (g : Graph) (hy : SemHypR g) (s : State) (p w : Nat) (hp : p < g.nodes.length)
+    (hf : (g.node p).flat = false) (hs : (g.node p).sets = []) (s1 : State) (evs : List Event)
+    (h : runDecision g s p w = .ok (false, s1, evs)) : ∃ r, r ∈ sharedResults g s p := by
+  obtain ⟨p1, p2, p3, _⟩ := hy.plainNodes p hp hf
+  unfold runDecision at h
+  simp only [p1, p2, p3, hf, Bool.false_eq_true, if_false, hs, List.isEmpty_nil, if_true] at h
+  by_cases hid : g.idIn w p = true
+  · simp only [hid, Bool.not_true, Bool.false_eq_true, if_false] at h
+    unfold runDecisionStateless at h
+    cases hr : sharedResults g s p with
+    | nil => simp [hr] at h
+    | cons a r => exact ⟨a, List.mem_cons_self⟩
+  · simp [hid] at h
+
+/-! ## a positive run decision without retries -/
+
+/-- no retries -/
+def MaxTriesOne (g : Graph) : Prop := ∀ n, n < g.nodes.length → (g.node n).maxTries.getD 1 = 1
+
+instance (g : Graph) : Decidable (MaxTriesOne g) := by unfold MaxTriesOne; infer_instance
+
+theorem shouldRerun_mt1 (g : Graph) (s : State) (n w : Nat) (h : (g.node n).maxTries.getD 1 = 1) :
+    shouldRerun g s n w ≠ .ok true := by
+  unfold shouldRerun
+  simp only [h, beq_self_eq_true, if_true]
+  repeat' split
+  all_goals first
+    | (intro hh; cases hh)
+    | simp
+
+/-- why a test is run when there are no retries: the class has no result (stateless), or no copy of the class has
+been traversed (stateful) -/
+def RunWhy (g : Graph) (s : State) (n : Nat) : Prop :=
+  ((g.node n).sets = [] → sharedResults g s n = []) ∧
+  ((g.node n).sets ≠ [] → ∀ i ∈ g.copies n, (s.nd i).finished = none)
+
+theorem isFinished_false_none (g : Graph) (s : State) (n w : Nat) (hf : (g.node n).flat = false)
+    (hshape : (g.node n).shape = .global) (h : isFinished g s n w 1 = false) :
+    ∀ i ∈ g.copies n, (s.nd i).finished = none := by
+  intro i hi
+  cases hfi : (s.nd i).finished with
+  | none => rfl
+  | some v =>
+    exfalso
+    have hv : v ∈ sharedFinished g s n := (mem_sharedFinished g s n v).mpr ⟨i, hi, hfi⟩
+    unfold isFinished scopeCount at h
+    have e1 : ((1 : Int) == -1) = false := by decide
+    simp only [hf, Bool.false_eq_true, if_false, hshape, e1, decide_eq_false_iff_not, ge_iff_le] at h
+    have : 0 < (sharedFinished g s n).length := List.length_pos_of_mem hv
+    omega
+
+theorem runDecision_true_why (g : Graph) (hy : SemHypR g) (s : State) (n w : Nat) (hn : n < g.nodes.length)
+    (hf : (g.node n).flat = false) (hmt : (g.node n).maxTries.getD 1 = 1) (s1 : State) (evs : List Event)
+    (h : runDecision g s n w = .ok (true, s1, evs)) : RunWhy g s n := by
+  obtain ⟨p1, p2, p3, _⟩ := hy.plainNodes n hn hf
+  obtain ⟨hshape, _⟩ := hy.fullScope n hn hf
+  unfold runDecision at h
+  simp only [p1, p2, p3, hf, Bool.false_eq_true, if_false] at h
+  have hid : g.idIn w n = true := by
+    by_cases hid : g.idIn w n = true
+    · exact hid
+    · simp [hid] at h
+  simp only [hid, Bool.not_true, Bool.false_eq_true, if_false] at h
+  cases hs : (g.node n).sets with
+  | nil =>
+    refine ⟨fun _ => ?_, fun hne => absurd hs hne⟩
+    simp only [hs, List.isEmpty_nil, if_true] at h
+    unfold runDecisionStateless at h
+    cases hr : sharedResults g s n with
+    | nil => rfl
+    | cons a r =>
+      exfalso
+      simp only [hr, List.isEmpty_cons, Bool.false_eq_true, if_false] at h
+      cases hsr : shouldRerun g s n w with
+      | error e => simp [hsr, Except.map] at h
+      | ok b =>
+        simp only [hsr, Except.map, Except.ok.injEq, Prod.mk.injEq] at h
+        rw [h.1] at hsr
+        exact shouldRerun_mt1 g s n w hmt hsr
+  | cons a r =>
+    refine ⟨fun he => absurd (hs.symm.trans he) (List.cons_ne_nil a r), fun _ => ?_⟩
+    simp only [hs, List.isEmpty_cons, Bool.false_eq_true, if_false] at h
+    unfold runDecisionStateful runDecisionStatefulCore at h
+    by_cases hfin : isFinished g s n w 1 = true
+    · exfalso
+      simp only [hfin, Bool.not_true, Bool.false_and, Bool.false_eq_true, if_false] at h
+      generalize hX : (if ((sharedFilteredResults g s n (s.nd n).started).isEmpty && !(false, ([] : List Event)).1) = true
+        then disableRerun s n else s) = X at h
+      cases hsr : shouldRerun g X n w with
+      | error e => simp [hsr, Except.map] at h
+      | ok b =>
+        simp only [hsr, Except.map, Except.ok.injEq, Prod.mk.injEq] at h
+        rw [h.1] at hsr
+        exact shouldRerun_mt1 g X n w hmt hsr
+    · exact isFinished_false_none g s n w hf hshape (by simpa using hfin)
+
 /-! ## the start of a test -/
 
 /-- what is known at the start of `n` by `w` in state `sd`: every state `n` gets through a setup edge from a parsed
 parent relevant to `w` is in the shared pool, or in a pool named in `get_location`, or the parent's class has a result
-that did not pass — or `w`'s copy of the parent class is cleanup-ready for `w` (to be excluded by C05's invariant) -/
+that did not pass — or a removable copy of the parent's class is cleanup-ready for its owner (to be excluded) -/
 def AvailR (g : Graph) (sd : State) (w n : Nat) : Prop :=
   ∀ e ∈ (g.node n).setup, (g.node e.1).flat = false → relevant g w e.1 = true →
     ∀ vs ∈ (g.node n).gets, vs.1 ∈ e.2 →
@@ -499,24 +651,22 @@ def AvailR (g : Graph) (sd : State) (w n : Nat) : Prop :=
       (∃ u, u < g.workers.length ∧ vs ∈ storeGet sd.store (g.worker u).id ∧
         HasLoc (sd.nd n).getLoc vs.1 (workerLoc g u)) ∨
       (∃ r ∈ sharedResults g sd e.1, r.status ≠ "PASS") ∨
-      (∃ p', p' < g.nodes.length ∧ (g.node p').cls = (g.node e.1).cls ∧ relevant g w p' = true ∧
-        isCleanupReady g sd p' w = true)
+      Alt g sd e.1
 
 /-- provenance of a `start` event of worker `w` in a piece of a step that ends in state `sout`: the test proper of an
-own node `n`, started in a state `sd` with `Trv` and `AvailR`; `sout` has the `droppedCleanup` registers of `sd`, and
-`w` awaits the test on `n` there -/
-def StartSemR (g : Graph) (w : Nat) (sout : State) (e : Event) : Prop :=
+own node `n`, started in a state `sd` with `Trv`, `SemR` and `AvailR`, for the reason `RunWhy` if `n` is not retried;
+`sout` has the `droppedCleanup` registers of `sd`, and `w` awaits the test on `n` there -/
+def StartSemR (g : Graph) (store0 : List (String × List (String × String))) (w : Nat) (sout : State) (e : Event) : Prop :=
   ∀ wid cname uid locs k, e = .start wid cname uid locs k →
     ∃ n sd, cname = clsName g n .plain ∧ locs = (sd.nd n).getLoc ∧ n < g.nodes.length ∧ g.idIn w n = true ∧
-      (g.node n).flat = false ∧ Trv g [] sd ∧ AvailR g sd w n ∧
+      (g.node n).flat = false ∧ Trv g [] sd ∧ SemR g store0 sd ∧ AvailR g sd w n ∧
+      ((g.node n).maxTries.getD 1 = 1 → RunWhy g sd n) ∧
       (∀ cp, (sout.cr cp).droppedCleanup = (sd.cr cp).droppedCleanup) ∧ sout.workers.length = sd.workers.length ∧
       (w < sd.workers.length → ∃ dir uid' tag, (sout.wd w).pc = .test n .plain dir uid' tag 0)
 
 /-- the events of a piece of the loop body: no start, or the piece suspends in the state the start refers to -/
-def EvR (g : Graph) (w : Nat) (r : Step) : Prop :=
-  ∀ e ∈ r.2.1, NS e ∨ (r.2.2 = Flow.suspend ∧ StartSemR g w r.1 e)
-
-theorem EvR.of_ns {g : Graph} {w : Nat} {r : Step} (h : ∀ e ∈ r.2.1, NS e) : EvR g w r := fun e he => Or.inl (h e he)
+def EvR (g : Graph) (store0 : List (String × List (String × String))) (w : Nat) (r : Step) : Prop :=
+  ∀ e ∈ r.2.1, NS e ∨ (r.2.2 = Flow.suspend ∧ StartSemR g store0 w r.1 e)
 
 theorem hidden_nil_of_trv {g : Graph} {s : State} (t : Trv g [] s) : s.hidden = [] := by
   cases hh : s.hidden with
@@ -530,7 +680,7 @@ theorem traverseNode_semR (g : Graph) (hwf : GraphWF g)
     (dir : Dir) (hn : next < g.nodes.length)
     (hocc : isOccupied g s next w = false) (hready : isSetupReady g s next w = true)
     (t : Trv g [] s) (j : SemR g store0 s) :
-    SemR g store0 (traverseNode g s w next prev dir).1 ∧ EvR g w (traverseNode g s w next prev dir) := by
+    SemR g store0 (traverseNode g s w next prev dir).1 ∧ EvR g store0 w (traverseNode g s w next prev dir) := by
   have hlen := t.nodesLen
   unfold traverseNode
   simp only [hocc, Bool.false_eq_true, if_false]
@@ -573,7 +723,8 @@ theorem traverseNode_semR (g : Graph) (hwf : GraphWF g)
         intro wid cname uid' locs k' hev
         rw [hek] at hev
         cases hev
-        refine ⟨next, s1, rfl, rfl, hn, hid, hflat, t.upd sc.hO.uniq h1, ?_, fun cp => by rw [hfst]; rfl,
+        have fD := frameC_runDecision g _ next w true s1 evs hd
+        refine ⟨next, s1, rfl, rfl, hn, hid, hflat, t.upd sc.hO.uniq h1, j1, ?_, fun hmt => ?_, fun cp => by rw [hfst]; rfl,
           by rw [hfst, workers_length_setWd]; rfl, fun hw => ?_⟩
         · -- availability
           intro e hemem hfp hrelp vs hvs hvm
@@ -582,7 +733,6 @@ theorem traverseNode_semR (g : Graph) (hwf : GraphWF g)
           have hdrop := (setup_ready_iff' g s next w).mp hready e hemem hrelp
           obtain ⟨p', hp'l, hp'c, hp'r, hp'f⟩ := t.dropS _ _ w hdrop
           have hp'flat : (g.node p').flat = false := by rw [sc.hF p' hp'l e.1 hpl hp'c]; exact hfp
-          have hp'o : (g.node p').owner = some w := (sc.hO w p' hp'l hp'flat).mp (relevant_nonflat hp'r hp'flat)
           rcases j.fin p' hp'l hp'flat (by rw [hp'f hp'flat]; rfl) vs
               (by rw [sc.hy.setsClass p' hp'l e.1 hpl hp'c]; exact hsets) with hsrc' | halt
           · have hsrc : Src g s e.1 vs := hsrc'.congr hp'l hpl hp'flat hfp hp'c
@@ -611,7 +761,12 @@ theorem traverseNode_semR (g : Graph) (hwf : GraphWF g)
               rw [sharedResults_congr g s s1 e.1 f1.fr.results, ← sharedResults_congr g s _ e.1 fA.fr.results]
               exact hr
           · right; right; right
-            exact ⟨p', hp'l, hp'c, hp'r, f1.mono.ready g p' w (halt.2 w hp'o)⟩
+            exact (halt.congr hp'c).mono f1.mono
+        · -- why it is run: transported over the run decision (results and `finished` marks unchanged)
+          obtain ⟨w1, w2⟩ := runDecision_true_why g sc.hy _ next w hn hflat hmt s1 evs hd
+          refine ⟨fun hs => ?_, fun hs i hi => ?_⟩
+          · rw [sharedResults_congr g _ s1 next fD.fr.results]; exact w1 hs
+          · rw [fD.fr.fin i]; exact w2 hs i hi
         · refine ⟨dir, uidOf (g.node next).pfx (sharedResults g s1 next).length, s1.nextTag, ?_⟩
           show (s2.wd w).pc = _
           rw [hfst, wd_setWd_eq _ w _ (by exact hw)]
@@ -623,7 +778,12 @@ theorem traverseNode_semR (g : Graph) (hwf : GraphWF g)
       have hsrc : next < g.nodes.length → (g.node next).flat = false → ∀ vs ∈ (g.node next).sets, Src g s1 next vs ∨ Alt g s1 next := by
         intro _ hfl vs hvs
         exact (runDecision_false_srcR g sc _ jB next w hn hfl s1 evs hd vs hvs).imp fD.fr.grow.src (fun h => h.mono fD.mono)
-      have j2 : SemR g store0 (finishTraverse s1 next w) := j1.finish next w hsrc
+      have hres0 : next < g.nodes.length → (g.node next).flat = false → (g.node next).sets = [] →
+          ∃ r, r ∈ sharedResults g s1 next := by
+        intro _ hfl hs
+        obtain ⟨r, hr⟩ := runDecision_false_res g sc.hy _ next w hn hfl hs s1 evs hd
+        exact ⟨r, fD.fr.grow.sharedResults g next r hr⟩
+      have j2 : SemR g store0 (finishTraverse s1 next w) := j1.finish next w hsrc hres0
       obtain ⟨j3, e3⟩ := afterTraverse_semR g sc.hy sc.hO (finishTraverse s1 next w) w next prev dir hn j2
       rcases hat : afterTraverse g (finishTraverse s1 next w) w next prev dir with ⟨s2, evs2, f⟩
       rw [hat] at j3 e3
@@ -633,19 +793,19 @@ theorem traverseNode_semR (g : Graph) (hwf : GraphWF g)
       · exact Or.inl (e3 e he)
 
 theorem semR_silent {g : Graph} {store0 : List (String × List (String × String))} {w : Nat} {s s' : State}
-    (j : SemR g store0 s) (a : FrameC s s') (f : Flow) : SemR g store0 s' ∧ EvR g w (s', [], f) :=
+    (j : SemR g store0 s) (a : FrameC s s') (f : Flow) : SemR g store0 s' ∧ EvR g store0 w (s', [], f) :=
   ⟨j.frameC a, fun _ he => nomatch he⟩
 
 theorem semR_single {g : Graph} {store0 : List (String × List (String × String))} {w : Nat} {s s' : State}
     {e : Event} (j : SemR g store0 s) (a : FrameC s s') (h : Plain e) (f : Flow) :
-    SemR g store0 s' ∧ EvR g w (s', [e], f) :=
+    SemR g store0 s' ∧ EvR g store0 w (s', [e], f) :=
   ⟨j.frameC a, fun e' he => by rw [List.mem_singleton.mp he]; exact Or.inl (NS.of_plain h)⟩
 
 /-- one iteration of the loop on a pre-parsed graph -/
 theorem iter_semR (g : Graph) (hwf : GraphWF g)
     {store0 : List (String × List (String × String))} (sc : SemCtxR g store0) (w : Nat) (s : State)
     (t : Trv g [] s) (j : SemR g store0 s) :
-    SemR g store0 (iter g s w).1 ∧ EvR g w (iter g s w) := by
+    SemR g store0 (iter g s w).1 ∧ EvR g store0 w (iter g s w) := by
   have hpath := t.path w
   unfold iter
   dsimp only
@@ -696,7 +856,7 @@ theorem iter_semR (g : Graph) (hwf : GraphWF g)
 theorem iterL_semR (g : Graph) (hwf : GraphWF g)
     {store0 : List (String × List (String × String))} (sc : SemCtxR g store0) (w : Nat) (s : State)
     (t : Trv g [] s) (j : SemR g store0 s) :
-    SemR g store0 (iterL g s w).1 ∧ EvR g w (iterL g s w) := by
+    SemR g store0 (iterL g s w).1 ∧ EvR g store0 w (iterL g s w) := by
   unfold iterL
   split
   · rw [Clean.vis_of_nil g s (hidden_nil_of_trv t)]
@@ -712,7 +872,7 @@ theorem runLoop_semR (g : Graph) (hwf : GraphWF g) (hroot : (g.node g.root).flat
     {store0 : List (String × List (String × String))} (sc : SemCtxR g store0) (w : Nat) (fuel : Nat)
     (s : State) (evs : List Event) (t : Trv g [] s) (j : SemR g store0 s) :
     SemR g store0 (runLoop g w fuel s evs).1 ∧
-      ∀ e ∈ (runLoop g w fuel s evs).2, e ∈ evs ∨ NS e ∨ StartSemR g w (runLoop g w fuel s evs).1 e := by
+      ∀ e ∈ (runLoop g w fuel s evs).2, e ∈ evs ∨ NS e ∨ StartSemR g store0 w (runLoop g w fuel s evs).1 e := by
   induction fuel generalizing s evs with
   | zero =>
     unfold runLoop
@@ -738,7 +898,7 @@ theorem runLoop_semR (g : Graph) (hwf : GraphWF g) (hroot : (g.node g.root).flat
       · rcases he.2 x hx with h | ⟨h, _⟩
         · exact Or.inr h
         · exact absurd h hf
-    have hsu : ∀ x ∈ evs ++ e, x ∈ evs ∨ NS x ∨ StartSemR g w s1 x := by
+    have hsu : ∀ x ∈ evs ++ e, x ∈ evs ∨ NS x ∨ StartSemR g store0 w s1 x := by
       intro x hx
       rcases List.mem_append.mp hx with hx | hx
       · exact Or.inl hx
@@ -783,7 +943,7 @@ theorem SemR.record {g : Graph} {store0 : List (String × List (String × String
     (hresn : (sb.nd n).results = ((s.nd n).results ++ [res]).filter (fun r => !(r.status == "UNKNOWN" && r.tag == tag)))
     (hname : res.name = (g.node n).name) (hrtag : res.tag = 0) (hpass : res.status = "PASS" → produced)
     (hm : MonoC s sb) :
-    SemR g store0 sb ∧ ∀ vs ∈ (g.node n).sets, Src g sb n vs := by
+    SemR g store0 sb ∧ (∀ vs ∈ (g.node n).sets, Src g sb n vs) ∧ ∃ r, r ∈ sharedResults g sb n := by
   have hresmem : res ∈ (sb.nd n).results := by
     rw [hresn]
     refine List.mem_filter.mpr ⟨List.mem_append_right _ (List.mem_singleton.mpr rfl), ?_⟩
@@ -801,7 +961,17 @@ theorem SemR.record {g : Graph} {store0 : List (String × List (String × String
     by_cases hq : q = n
     · subst hq; exact ⟨res, hresmem, hname⟩
     · exact ⟨r, by rw [hres q hq]; exact hr, hrn⟩
-  refine ⟨⟨fun loc vs h => ?_, fun p hp hfp hfinp vs hvs => ?_⟩, hsrcn⟩
+  have hsameC : ∀ p, p < g.nodes.length → (g.node p).flat = false → (g.node n).cls ≠ (g.node p).cls →
+      ∀ r, r ∈ sharedResults g s p → r ∈ sharedResults g sb p := by
+    intro p hp hfp hc r hr
+    rw [mem_sharedResults_iff] at hr ⊢
+    obtain ⟨i, hi, hri⟩ := hr
+    have hin : i ≠ n := by
+      intro hin
+      rw [hin] at hi
+      exact hc ((mem_copies_iff g p n hp hfp).mp hi).2
+    exact ⟨i, hi, by rw [hres i hin]; exact hri⟩
+  refine ⟨⟨fun loc vs h => ?_, fun p hp hfp hfinp vs hvs => ?_, fun p hp hfp hfinp hs => ?_⟩, hsrcn, res, hresS⟩
   · rcases (hstore loc vs).mp h with h | ⟨_, h1, h2⟩
     · rcases j.prov loc vs h with h' | ⟨u, q, h1, h2, h3, h4, h5, h6⟩
       · exact Or.inl h'
@@ -827,15 +997,20 @@ theorem SemR.record {g : Graph} {store0 : List (String × List (String × String
         exact ⟨r, hsame r hr, h1, h2⟩
       · exact Or.inl (Or.inr (Or.inr ⟨r, hsame r hr, h⟩))
       · exact Or.inr (h.mono hm)
+  · by_cases hc : (g.node n).cls = (g.node p).cls
+    · exact ⟨res, sharedResults_class g sb n p hn hp hf hfp hc res hresS⟩
+    · rw [hfin] at hfinp
+      obtain ⟨r, hr⟩ := j.res p hp hfp hfinp hs
+      exact ⟨r, hsameC p hp hfp hc r hr⟩
 
 /-- the continuation after the awaited test proper on `n`, whose set states are sourced -/
 theorem continueAfter_semR (g : Graph) (hwf : GraphWF g) (hroot : (g.node g.root).flat = true)
     {store0 : List (String × List (String × String))} (sc : SemCtxR g store0) (w n : Nat) (dir : Dir) (fuel : Nat)
     (s : State) (ok : Bool) (evs : List Event) (t : Trv g [] s) (j : SemR g store0 s) (hr : ReadyAt g [] s w n)
-    (hsrc : ∀ vs ∈ (g.node n).sets, Src g s n vs) :
+    (hsrc : ∀ vs ∈ (g.node n).sets, Src g s n vs) (hres0 : ∃ r, r ∈ sharedResults g s n) :
     SemR g store0 (resumeTest.continueAfter g w n .plain dir fuel s ok evs).1 ∧
       ∀ e ∈ (resumeTest.continueAfter g w n .plain dir fuel s ok evs).2,
-        e ∈ evs ∨ NS e ∨ StartSemR g w (resumeTest.continueAfter g w n .plain dir fuel s ok evs).1 e := by
+        e ∈ evs ∨ NS e ∨ StartSemR g store0 w (resumeTest.continueAfter g w n .plain dir fuel s ok evs).1 e := by
   unfold resumeTest.continueAfter
   have e1 : (Phase.plain == Phase.pre) = false := rfl
   simp only [e1, Bool.false_and, Bool.false_eq_true, if_false]
@@ -843,7 +1018,7 @@ theorem continueAfter_semR (g : Graph) (hwf : GraphWF g) (hroot : (g.node g.root
   have hrel : relevant g w n = true := relevant_of_idIn hr.2.1
   have hf : Upd g [] w s (finishTraverse s n w) := upd_finishTraverse g [] w s n hn hrel
   have tf := t.upd sc.hO.uniq hf
-  have jf : SemR g store0 (finishTraverse s n w) := j.finish n w (fun _ _ vs hvs => Or.inl (hsrc vs hvs))
+  have jf : SemR g store0 (finishTraverse s n w) := j.finish n w (fun _ _ vs hvs => Or.inl (hsrc vs hvs)) (fun _ _ _ => hres0)
   have hfin : ((finishTraverse s n w).nd n).finished = some w := by
     unfold finishTraverse; rw [nd_setNd_eq s n _ (by rw [t.nodesLen]; exact hn)]
   rw [Clean.vis_of_nil g _ (hidden_nil_of_trv tf)]
@@ -862,7 +1037,7 @@ theorem continueAfter_semR (g : Graph) (hwf : GraphWF g) (hroot : (g.node g.root
     · exact Or.inl hx
     · exact Or.inr (e3 x hx)
   have hloop : SemR g store0 (runLoop g w fuel s2 (evs ++ e2)).1 ∧
-      ∀ e ∈ (runLoop g w fuel s2 (evs ++ e2)).2, e ∈ evs ∨ NS e ∨ StartSemR g w (runLoop g w fuel s2 (evs ++ e2)).1 e := by
+      ∀ e ∈ (runLoop g w fuel s2 (evs ++ e2)).2, e ∈ evs ∨ NS e ∨ StartSemR g store0 w (runLoop g w fuel s2 (evs ++ e2)).1 e := by
     obtain ⟨h4, h5⟩ := runLoop_semR g hwf hroot sc w fuel s2 (evs ++ e2) t2 j2
     refine ⟨h4, fun x hx => ?_⟩
     rcases h5 x hx with hx | hx
@@ -899,7 +1074,7 @@ theorem resumeTest_semR (g : Graph) (hwf : GraphWF g) (hroot : (g.node g.root).f
     (t : Trv g [] s) (j : SemR g store0 s) (hpc : (s.wd w).pc = .test n .plain dir uid tag wait) :
     SemR g store0 (resumeTest g s w n .plain dir uid tag wait out fuel).1 ∧
       ∀ e ∈ (resumeTest g s w n .plain dir uid tag wait out fuel).2,
-        NS e ∨ StartSemR g w (resumeTest g s w n .plain dir uid tag wait out fuel).1 e := by
+        NS e ∨ StartSemR g store0 w (resumeTest g s w n .plain dir uid tag wait out fuel).1 e := by
   have hr : ReadyAt g [] s w n := t.pc w n .plain dir uid tag wait hpc
   obtain ⟨hn, hid, hfl, _⟩ := hr
   have ho : (g.node n).owner = some w := (sc.hO w n hn hfl).mp hid
@@ -918,13 +1093,14 @@ theorem resumeTest_semR (g : Graph) (hwf : GraphWF g) (hroot : (g.node g.root).f
   simp only [e1, Bool.false_eq_true, if_false]
   obtain ⟨ha, hea⟩ := reportOutcomeR_ok g [] s w n .plain uid wait out
   have hcont : ∀ sb ok, Upd g [] w s sb → SemR g store0 sb → (∀ vs ∈ (g.node n).sets, Src g sb n vs) →
+      (∃ r, r ∈ sharedResults g sb n) →
       SemR g store0 (resumeTest.continueAfter g w n .plain dir fuel sb ok (reportOutcomeR g s w n .plain uid wait out).2).1 ∧
       ∀ e ∈ (resumeTest.continueAfter g w n .plain dir fuel sb ok (reportOutcomeR g s w n .plain uid wait out).2).2,
-        NS e ∨ StartSemR g w
+        NS e ∨ StartSemR g store0 w
           (resumeTest.continueAfter g w n .plain dir fuel sb ok (reportOutcomeR g s w n .plain uid wait out).2).1 e := by
-    intro sb ok hb jb hsrc
+    intro sb ok hb jb hsrc hres0
     obtain ⟨h1, h2⟩ := continueAfter_semR g hwf hroot sc w n dir fuel sb ok (reportOutcomeR g s w n .plain uid wait out).2
-      (t.upd sc.hO.uniq hb) jb ((t.pc w n .plain dir uid tag wait hpc).mono hb.hidden hb.monoS) hsrc
+      (t.upd sc.hO.uniq hb) jb ((t.pc w n .plain dir uid tag wait hpc).mono hb.hidden hb.monoS) hsrc hres0
     refine ⟨h1, fun e he => ?_⟩
     rcases h2 e he with he | he
     · exact Or.inl (NS.of_plain (hea e he))
@@ -953,17 +1129,17 @@ theorem resumeTest_semR (g : Graph) (hwf : GraphWF g) (hroot : (g.node g.root).f
         (g.node n).name uid tag st odur).1 :=
       (MonoC.of_same (Clean.same_reportOutcomeR g s w n .plain uid 0 ⟨some st, odur⟩)).trans
         (MonoC.of_same (Clean.same_recordResultR _ w n .plain (g.node n).name uid tag st odur))
-    obtain ⟨jb, hsrc⟩ := SemR.record sc j w n tag res ((st == "PASS" || st == "WARN") = true) hn hfl ho htag
+    obtain ⟨jb, hsrc, hres0⟩ := SemR.record sc j w n tag res ((st == "PASS" || st == "WARN") = true) hn hfl ho htag
       (fun loc vs => by rw [hst2]; exact hstore loc vs)
       (fun m => by rw [hfin2, hnd]) (fun m hm => by rw [hres2 m hm, hnd]) (by rw [hresn2, hnd]) hname hrtag
       (fun h => by rw [hpass h]; rfl) hmc
-    exact hcont _ _ hb jb hsrc
+    exact hcont _ _ hb jb hsrc hres0
   · have hsa : (reportOutcomeR g s w n .plain uid wait out).1 = s := reportOutcomeR_idle g s w n .plain uid wait out hrep
     rw [hsa, hnone]
     dsimp only
     have hwait : SemR g store0 (s.setWd w (fun d => { d with pc := .test n .plain dir uid tag (wait + 1) })) ∧
         ∀ e ∈ (reportOutcomeR g s w n .plain uid wait out).2 ++ [Event.sleep (g.worker w).id 3000],
-          NS e ∨ StartSemR g w (s.setWd w (fun d => { d with pc := .test n .plain dir uid tag (wait + 1) })) e := by
+          NS e ∨ StartSemR g store0 w (s.setWd w (fun d => { d with pc := .test n .plain dir uid tag (wait + 1) })) e := by
       refine ⟨j.frameC (frameC_setWd s w _), fun e he => ?_⟩
       rcases List.mem_append.mp he with he | he
       · exact Or.inl (NS.of_plain (hea e he))
@@ -972,7 +1148,7 @@ theorem resumeTest_semR (g : Graph) (hwf : GraphWF g) (hroot : (g.node g.root).f
     · exact hwait
     · split
       · exact hwait
-      · refine hcont s false (Upd.refl g [] w s) j (fun vs _ => ?_)
+      · refine hcont s false (Upd.refl g [] w s) j (fun vs _ => ?_) ⟨_, mem_sharedResults g s n n _ hn hfl rfl hph⟩
         exact Or.inr (Or.inr ⟨phOf (g.node n).name tag, mem_sharedResults g s n n _ hn hfl rfl hph, by show "UNKNOWN" ≠ "PASS"; decide⟩)
 
 /-- one scheduler step from a state with the invariants of C03 (`Basic`, `Uids`), `Trv` and `SemR` -/
@@ -980,9 +1156,9 @@ theorem resume_semR (g : Graph) (hwf : GraphWF g) (hroot : (g.node g.root).flat 
     {store0 : List (String × List (String × String))} (sc : SemCtxR g store0) (s : State) (w : Nat) (out : Outcome)
     (fuel : Nat) (b : Basic g s All) (u : Uids g s All) (t : Trv g [] s) (j : SemR g store0 s) :
     SemR g store0 (resume g s w out fuel).1 ∧
-      ∀ e ∈ (resume g s w out fuel).2, NS e ∨ StartSemR g w (resume g s w out fuel).1 e := by
+      ∀ e ∈ (resume g s w out fuel).2, NS e ∨ StartSemR g store0 w (resume g s w out fuel).1 e := by
   have hloop : SemR g store0 (runLoop g w fuel s []).1 ∧
-      ∀ e ∈ (runLoop g w fuel s []).2, NS e ∨ StartSemR g w (runLoop g w fuel s []).1 e := by
+      ∀ e ∈ (runLoop g w fuel s []).2, NS e ∨ StartSemR g store0 w (runLoop g w fuel s []).1 e := by
     obtain ⟨h1, h2⟩ := runLoop_semR g hwf hroot sc w fuel s [] t j
     refine ⟨h1, fun e he => ?_⟩
     rcases h2 e he with he | he
@@ -1050,6 +1226,32 @@ def exRm2 : Graph :=
       { cls := 2, owner := none, name := "noop", pfx := "1", flat := true, sharedRoot := true,
         cleanup := [(0, ["vm1"]), (2, ["vm1"])] }],
     root := 3 }
+
+/-- two workers in one scope, every class parsed for both: the removable class `a` (sets `vm1/a`, policy `fi`) and its
+dependants `b` and `d` (`SymCopies` holds, `RemovableSingle` does not) -/
+def exRmSym : Graph :=
+  { workers := [{ id := "net1", swarm := "localhost" }, { id := "net2", swarm := "localhost" }],
+    nodes := [
+      { cls := 0, owner := some 0, name := "a.net1", pfx := "1a1", objs := ["vm1"],
+        sets := [("vm1", "a")], unsetMode := [("vm1", "fi")], setup := [(6, ["vm1"])],
+        cleanup := [(2, ["vm1"]), (4, ["vm1"])] },
+      { cls := 0, owner := some 1, name := "a.net2", pfx := "1a1", objs := ["vm1"],
+        sets := [("vm1", "a")], unsetMode := [("vm1", "fi")], setup := [(6, ["vm1"])],
+        cleanup := [(3, ["vm1"]), (5, ["vm1"])] },
+      { cls := 1, owner := some 0, name := "b.net1", pfx := "2a1", objs := ["vm1"],
+        gets := [("vm1", "a")], setup := [(0, ["vm1"])] },
+      { cls := 1, owner := some 1, name := "b.net2", pfx := "2a1", objs := ["vm1"],
+        gets := [("vm1", "a")], setup := [(1, ["vm1"])] },
+      { cls := 3, owner := some 0, name := "d.net1", pfx := "3a1", objs := ["vm1"],
+        gets := [("vm1", "a")], setup := [(0, ["vm1"])] },
+      { cls := 3, owner := some 1, name := "d.net2", pfx := "3a1", objs := ["vm1"],
+        gets := [("vm1", "a")], setup := [(1, ["vm1"])] },
+      { cls := 2, owner := none, name := "noop", pfx := "1", flat := true, sharedRoot := true,
+        cleanup := [(0, ["vm1"]), (1, ["vm1"])] }],
+    root := 6 }
+
+/-- net1 ran `a` (PASS) and is running `b`; net2 has not moved -/
+def exRmSym_2 : State := runSched exRmSym 100 (initState exRmSym 4 [] []) [(0, exNoOut), (0, exPass)]
 
 /-- `exSt` of `TravStates.lean` (test `a` sets `vm1/a`, copies for net1 and net2; only net2 has the dependant `b`) with
 the removal policy `fi` on `a`: `RemovableSingle` fails -/
